@@ -65,6 +65,7 @@ def run(v):
     ref = [r["a"] for r in seq_cold]
     # B3: record the shared-access programs of every shape (cold and warm)
     progs, plines, nlines = {}, {}, {}
+    rebinding = {}
     recs = parallel([{"fn": "record", "args": [a, w]} for a in S for w in (False, True)])
     k = 0
     for i, a in enumerate(S):
@@ -76,6 +77,8 @@ def run(v):
             progs[(i, w)] = [e[:3] for e in r["program"]]
             plines[(i, w)] = [e[3] for e in r["program"]]
             nlines[(i, w)] = r["lines"]
+            if r.get("rebinds"):
+                rebinding.setdefault(i, set()).update(r["rebinds"])
     pairs = [(i, j, w) for i in range(len(S)) for j in range(len(S)) for w in (False, True)]
     tl_pairs = [{"A": progs[(i, w)], "B": progs[(j, w)]} for (i, j, w) in pairs]
     json.dump({"pairs": tl_pairs, "none": calls.digest(None)[:8]}, open(d + "/progs.json", "w"))
@@ -83,16 +86,22 @@ def run(v):
     core.require_clean(res, "MC_Threads")
     v.add_tlc("MC_Threads", res, {"pairs": len(pairs), "MaxSwitch": 2, "shapes": len(S)})
     flagged = {}
+    byloc = {}
     for l in res.prints("FOREIGN"):
         val = core.parse_tla(l)
         pr, t, pc, loc, other_pc = val[1], val[2], val[3], val[4], val[5]
         i, j, w = pairs[pr - 1]
-        # A is the preempted thread: if the reader is "B", swap roles
-        if t == "A":
-            key = (i, j, w, other_pc if other_pc > 1 else pc)
-        else:
-            key = (j, i, w, pc)
-        flagged.setdefault(key[:3], set()).add(loc)
+        # the schedule that realises the foreign read with one preemption of A: if A is the reader, B runs
+        # just before A's read (k = pc); if B is the reader, A is stopped where it was (k = other_pc)
+        byloc.setdefault(loc.split("[")[0], set()).add((i, j, w, pc if t == "A" else other_pc))
+    # windows on one location are alike: replay a bounded sample per location (all of them when few)
+    cap = 60 if quick else 1500
+    for loc, pts in sorted(byloc.items()):
+        pts = sorted(pts)
+        if len(pts) > cap:
+            pts = rng.sample(pts, cap)
+        for (i, j, w, kk) in pts:
+            flagged.setdefault((i, j, w), set()).add(kk)
     fills = {}
     for l in res.prints("FILL"):
         val = core.parse_tla(l)
@@ -100,13 +109,16 @@ def run(v):
         if not w:
             fills.setdefault((i, j), set()).add(plines[(i, w)][val[2] - 1])
     v.cov["cache_fill_windows_flagged_by_model"] = sum(len(x) for x in fills.values())
-    v.cov["scratch_windows_flagged_by_model"] = sum(len(x) for x in flagged.values())
+    v.cov["scratch_windows_flagged_by_model"] = {loc: len(x) for loc, x in byloc.items()}
     v.cov["shared_locations_seen"] = len({e[1] for pr in progs.values() for e in pr})
     # ---- replay 1: every flagged pair, access-level preemption at every shared access of A
     jobs, meta = [], []
-    for (i, j, w), locs in sorted(flagged.items()):
+    for (i, j, w), ks in sorted(flagged.items()):
         n = len(progs[(i, w)])
-        for kk in range(1, n + 1):
+        pts = set()
+        for kk in ks:
+            pts |= {max(1, kk - 1), kk, min(n, kk + 1)}
+        for kk in sorted(pts):
             jobs.append({"fn": "single", "args": [S[i], S[j], kk, w, "access"]})
             meta.append((i, j, w, kk, "access"))
     # ---- replay 1b: cold cache-fill windows: B runs at the lines from just before a fill to WINDOW lines after it
@@ -145,6 +157,11 @@ def run(v):
         okA = r["a"] == ref[i]
         okB = set(r["b"].keys()) <= {ref[j]}
         if not (okA and okB):
+            suspects.append((i, j, w, r))
+    # a call that rebinds a module-level name has shared state the proxies cannot follow: treat all its pairs as suspects
+    v.cov["calls_rebinding_module_globals"] = {names[i]: sorted(x) for i, x in rebinding.items()}
+    for (i, j, w), r in zip(dmeta, dres):
+        if (i in rebinding or j in rebinding) and not any(sx[:3] == (i, j, w) for sx in suspects):
             suspects.append((i, j, w, r))
     # ---- replay 3: single preemption points at line granularity: sampled for all pairs, all points for suspects
     for (i, j, w, r) in suspects:
